@@ -126,14 +126,14 @@ def geometry_exact(files, dims):
 # (RescaleSlope, RescaleIntercept): integral and dyadic fractional values (float arithmetic of the rescale is exact)
 RESCALES = [(None, None), (None, None), (1, 0), (2, -3), (3, None), (None, 10), (1, -7), (0.5, None), (0.25, 0.5), (1.5, -2), (20, None)]
 
-ACQ_PATTERNS = ['ascending', 'descending', 'interleaved', 'irregular', 'equal', 'inconsistent', 'missing', 'none_in_some']
+ACQ_PATTERNS = ['ascending', 'descending', 'interleaved', 'irregular', 'equal', 'inconsistent', 'missing', 'none_in_some', 'one_bad']
 TR_VARIANTS = ['unique', 'unique', 'varying', 'absent', 'some']
 PHASE_VARIANTS = ['ROW', 'COL', 'ROW', 'COL', 'varying', 'absent', 'some', 'other']
 
 
 def acq_offsets(rng, pattern, S):
     """slice s -> offset in units of 1/8 s"""
-    if pattern in ('ascending', 'inconsistent', 'none_in_some'):
+    if pattern in ('ascending', 'inconsistent', 'none_in_some', 'one_bad'):
         return [s * 2 for s in range(S)]
     if pattern == 'descending':
         return [(S - 1 - s) * 3 for s in range(S)]
@@ -154,10 +154,12 @@ def acq_offsets(rng, pattern, S):
 def make_stack_case(rng, S, T, V, orient='ax', direction=1, gap=2.0, origin=(0., 0., 0.), rows=2, cols=3, ps=(1.0, 1.0),
                     zs=None, mode=None, bits=12, pixrep=0, slope=None, intercept=None, acq='missing', tr='unique',
                     phase='ROW', vo='LAS', vo2=None, tagrules=None, consts=None, kind=None, shuffle=True, alloc=16,
-                    pixmix=None):
+                    pixmix=None, bad_vol=None):
     """One complete S x T x V grid as a conversion case.  mode: None (chosen from the dims) | 'none' | 'guess' | 'time' |
     'vec' | 'timevec'.  Extra `tagrules` / `consts` are passed to stacklib.make_grid (stacklib rule names).
     Pixel format: `bits`, `pixrep`, `slope`, `intercept`, `alloc` (BitsAllocated 8 | 16 | 32) apply to every file;
+    acq='one_bad': every volume has the (regular, ascending) pattern except volume number `bad_vol` = t + T * v
+    (random when None), whose slices were acquired in the opposite order.
     `pixmix` = a list drawn from {'rescale', 'bits', 'sign', 'alloc'} makes that aspect differ BETWEEN the files."""
     if mode is None:
         mode = 'timevec' if (V > 1 and T > 1) else 'vec' if V > 1 else rng.choice(['guess', 'time']) if T > 1 else rng.choice(['none', 'time'])
@@ -177,6 +179,8 @@ def make_stack_case(rng, S, T, V, orient='ax', direction=1, gap=2.0, origin=(0.,
     nrm = cross(iop[3:6], iop[0:3])
     offs = acq_offsets(rng, acq, S)
     offs_bad = acq_offsets(rng, 'descending', S) if S > 1 else offs
+    if acq == 'one_bad' and bad_vol is None:
+        bad_vol = rng.randrange(T * V)
     npx = rows * cols
     nfiles = len(files)
     # per-file pixel format
@@ -241,7 +245,7 @@ def make_stack_case(rng, S, T, V, orient='ax', direction=1, gap=2.0, origin=(0.,
         # acquisition times: volume (t, v) starts 4 s after the previous one
         if acq not in ('missing',):
             base = 36000 + 4 * (t + T * v)
-            o = offs_bad[s] if (acq == 'inconsistent' and (t + T * v) % 2 == 1) else offs[s]
+            o = offs_bad[s] if ((acq == 'inconsistent' and (t + T * v) % 2 == 1) or (acq == 'one_bad' and t + T * v == bad_vol)) else offs[s]
             if not (acq == 'none_in_some' and not some_mask[k]):
                 tags['AcquisitionTime'] = sl.tm_string(base + Fraction(o, 8))
         if tr == 'unique':
@@ -267,7 +271,7 @@ def make_stack_case(rng, S, T, V, orient='ax', direction=1, gap=2.0, origin=(0.,
             'vo': vo, 'exact': bool(exact), 'dims': [S, T, V],
             'info': {'orient': orient, 'direction': direction, 'mode': mode, 'acq': acq, 'tr': tr, 'phase': phase,
                      'bits': bits, 'pixrep': pixrep, 'slope': slope, 'intercept': intercept, 'alloc': alloc,
-                     'pixmix': pixmix}}
+                     'pixmix': pixmix, 'bad_vol': bad_vol}}
     den = 1
     for f in files:
         for row in true_pixels(f):
@@ -284,8 +288,8 @@ def gen_stack_case(rng, tier, **over):
     big = tier != 'quick'
     kw = {}
     kw['S'] = rng.choice([1, 2, 2, 3, 3] + ([4, 5] if big else []))
-    kw['T'] = rng.choice([1, 1, 2] + ([3] if big else []))
-    kw['V'] = rng.choice([1, 1, 1, 2] + ([3] if big else []))
+    kw['T'] = rng.choice([1, 1, 2, 2, 3] + ([4] if big else []))
+    kw['V'] = rng.choice([1, 1, 1, 2, 3] + ([4] if big else []))
     kw['orient'] = rng.choice(sorted(EXACT_ORIENTS) * 3 + sorted(APPROX_ORIENTS))
     kw['direction'] = rng.choice([1, -1])
     exactish = kw['orient'] in EXACT_ORIENTS and rng.random() < 0.9
@@ -478,10 +482,9 @@ def run_to_nifti(dcmstack, case, embed=False, meta_of=None, vo='__case__', datas
         try:
             img = call_to_nifti(st, vo, embed)
         except Exception as e:
+            # ANY exception of the conversion call is an observation (a complete stack must convert)
             nm = type(e).__name__
-            if nm not in ERRMAP:
-                raise
-            err = ERRMAP[nm]
+            err = ERRMAP.get(nm, 'ECrash:' + nm)
     return st, wid, img, err, cap.calls
 
 
@@ -546,13 +549,20 @@ def run_conversion_case(dcmstack, case):
     if err is not None:
         obs['err'] = err          # (the key is present only when to_nifti raised)
     if img is not None:
-        obs.update(observe_image(img, int(case.get('den', 1))))
-    if 'vo2' in case and err is None:
+        try:
+            obs.update(observe_image(img, int(case.get('den', 1))))
+        except Exception as e:
+            # e.g. voxels that were never written (np.empty garbage): the image is not a rearrangement of the sources
+            obs['err'] = 'ECrash:unobservable-image(%s)' % type(e).__name__
+    if 'vo2' in case and obs.get('err') is None:
         dss2 = [build_ds(f) for f in case['files']]
         st2, wid2, img2, err2, calls2 = run_to_nifti(dcmstack, case, False, None, vo=case['vo2'], datasets=dss2)
         obs['alt'] = {} if err2 is None else {'err': err2}
         if img2 is not None:
-            obs['alt'].update(observe_image(img2, int(case.get('den', 1))))
+            try:
+                obs['alt'].update(observe_image(img2, int(case.get('den', 1))))
+            except Exception as e:
+                obs['alt'] = {'err': 'ECrash:unobservable-image(%s)' % type(e).__name__}
     return obs
 
 
@@ -561,6 +571,8 @@ def run_conversion_case(dcmstack, case):
 
 def coq_obs(case, obs):
     e = obs.get('err')
+    if e is not None and e.startswith('ECrash'):
+        e = 'ECrash'
     if e is not None or 'shape' not in obs:
         return ('(mkobs %s %s %s [] [] (@nil N) [] (None, None, None) 0%%Q ((@nil N), (@nil N)) None)' %
                 (copt(e or 'ECrash', lambda x: x), clist(cnat(i) for i in obs['ids']), cbool(obs['dirty'])))
@@ -862,6 +874,11 @@ def error_cases(rng, tier):
     return out
 
 
+# S x T x V shapes with T != V, (X, Y, Z, 1, V) and (X, Y, 1, T, V)
+GRID_DIMS = [(2, 2, 1), (2, 3, 1), (2, 1, 2), (2, 1, 3), (2, 2, 2), (3, 3, 2), (2, 2, 3), (3, 1, 2)]
+DIMS5 = [(3, 3, 2), (2, 1, 3), (2, 2, 3), (2, 3, 2), (1, 2, 3), (3, 1, 2), (1, 3, 2), (1, 1, 3), (2, 3, 1)]
+
+
 class HeaderPart:
     """C20, header half: ready part for props/c20.py (PARTS = [Tm, convlib.HeaderPart])."""
     NAME = "header"
@@ -879,13 +896,23 @@ class HeaderPart:
 
     @staticmethod
     def gen_cases(rng, tier):
-        n = 260 if tier == 'quick' else 3000
+        n = 330 if tier == 'quick' else 3000
         out = []
         # systematic block: every acquisition pattern x flipped / not flipped slice axis
         for acq in ACQ_PATTERNS:
             for vo in ['LAS', 'LAI', 'ASL', '']:
                 for orient in ['ax', 'sag']:
                     out.append(gen_stack_case(rng, tier, S=3, T=2, V=1, acq=acq, vo=vo, orient=orient, kind='hdr-' + acq))
+        # the consistency condition over the WHOLE T x V grid: exactly one volume with another acquisition pattern, at every
+        # position (first / last time point, vector index 0 / >= 1), incl. shapes (X, Y, Z, 1, V); the regular pattern of the
+        # other volumes is one nibabel can encode
+        for (S, T, V) in GRID_DIMS:
+            out.append(gen_stack_case(rng, tier, S=S, T=T, V=V, acq='ascending', vo=rng.choice(['LAS', 'LAI', '']),
+                                      orient=rng.choice(['ax', 'sag', 'cor']), kind='hdr-grid-consistent'))
+            for bad in range(T * V):
+                for vo in (['LAS'] if tier == 'quick' and T * V > 4 else ['LAS', 'LAI']):
+                    out.append(gen_stack_case(rng, tier, S=S, T=T, V=V, acq='one_bad', bad_vol=bad, vo=vo,
+                                              orient=rng.choice(['ax', 'sag', 'cor', 'dd']), rows=2, cols=2, kind='hdr-one-bad-volume'))
         while len(out) < n:
             kw = {}
             if rng.random() < 0.7:
